@@ -37,7 +37,7 @@ type c10Case struct {
 	Method    string `json:"method"`
 	Variant   int    `json:"variant"`   // argument variant (victim targeting)
 	Switch    string `json:"switch"`    // none | addr | method | method-case | unrelated
-	Allowance string `json:"allowance"` // none | exact | short | ample
+	Allowance string `json:"allowance"` // none | exact | short | ample | revoked | lowered
 	Amt       int64  `json:"amt"`
 	// further switch entries that do not cover the call (other methods of the same precompile,
 	// the other precompile, unknown addresses); the covering entry is inserted at PadPos
@@ -57,7 +57,7 @@ func genC10(t *rapid.T) c10Case {
 		Method:    rapid.SampledFrom(c10Methods).Draw(t, "method"),
 		Variant:   rapid.IntRange(0, 3).Draw(t, "variant"),
 		Switch:    rapid.SampledFrom([]string{"none", "none", "none", "addr", "method", "method-case", "unrelated"}).Draw(t, "switch"),
-		Allowance: rapid.SampledFrom([]string{"none", "exact", "short", "ample"}).Draw(t, "allowance"),
+		Allowance: rapid.SampledFrom([]string{"none", "exact", "short", "ample", "revoked", "lowered"}).Draw(t, "allowance"),
 		Amt:       rapid.Int64Range(1, 500).Draw(t, "amt"),
 		Pads:      rapid.SliceOfN(rapid.SampledFrom([]string{"same-other-method", "same-other-method-2", "other-addr", "other-method", "unknown"}), 0, 3).Draw(t, "pads"),
 		PadPos:    rapid.IntRange(0, 3).Draw(t, "padPos"),
@@ -243,13 +243,24 @@ func runC10(c c10Case, rec *ev.Recorder) *Failure {
 	}
 	// allowance of the victim towards the direct caller (for transferFromShares)
 	shares := sim.Fx(c.Amt).BigInt()
+	granted := new(big.Int) // what the victim's last approval says (the model's allowance, not the stored one)
+	approve := func(x *big.Int) {
+		e.call(ctx, 1, "approveShares", val0.String(), direct, x)
+		granted = x
+	}
 	switch c.Allowance {
 	case "exact":
-		e.call(ctx, 1, "approveShares", val0.String(), direct, shares)
+		approve(shares)
 	case "short":
-		e.call(ctx, 1, "approveShares", val0.String(), direct, new(big.Int).Sub(shares, big.NewInt(1)))
+		approve(new(big.Int).Sub(shares, big.NewInt(1)))
 	case "ample":
-		e.call(ctx, 1, "approveShares", val0.String(), direct, new(big.Int).Mul(shares, big.NewInt(3)))
+		approve(new(big.Int).Mul(shares, big.NewInt(3)))
+	case "revoked": // granted, then taken back
+		approve(new(big.Int).Mul(shares, big.NewInt(3)))
+		approve(new(big.Int))
+	case "lowered": // granted, then replaced by less than the request
+		approve(new(big.Int).Mul(shares, big.NewInt(3)))
+		approve(new(big.Int).Sub(shares, big.NewInt(1)))
 	}
 	// governance switch
 	parts := strings.SplitN(c.Method, ".", 2)
@@ -439,8 +450,8 @@ func runC10(c c10Case, rec *ev.Recorder) *Failure {
 		if parts[1] == "transferFromShares" && success && n == "victim" && c.Variant != 3 {
 			allowAfter := f.App.StakingKeeper.GetAllowance(runCtx, val0, victim.Hex().Bytes(), direct.Bytes())
 			moved := before[n].Shares[val0.String()].Sub(after.Shares[val0.String()])
-			if allowBefore.Cmp(shares) < 0 || !moved.Equal(sdkmath.LegacyNewDecFromBigInt(shares)) || new(big.Int).Sub(allowBefore, shares).Cmp(allowAfter) != 0 {
-				return failf("C10/allowance-rule", "%s: allowance %s -> %s, shares moved %s for a request of %s", desc, allowBefore, allowAfter, moved, shares)
+			if granted.Cmp(shares) < 0 || allowBefore.Cmp(granted) != 0 || !moved.Equal(sdkmath.LegacyNewDecFromBigInt(shares)) || new(big.Int).Sub(granted, shares).Cmp(allowAfter) != 0 {
+				return failf("C10/allowance-rule", "%s: the victim's last approval grants %s (stored %s); afterwards stored %s, shares moved %s for a request of %s", desc, granted, allowBefore, allowAfter, moved, shares)
 			}
 			var rest []string
 			for _, r := range red {
